@@ -1020,12 +1020,16 @@ class eigenbasis_of(basis_context_manager):
     def __init__(self, operator):
         super().__init__()
         self.op = operator
-        # operator of the enclosing context (if any), restored on exit
-        self.outer_op = self.manager.current_basis_operator
-        self.manager.store_current_basis_operator(self.op)
         
         
     def __enter__(self):
+
+        # the record of the operator of the current context is changed when
+        # the context is entered (the context object may have been created
+        # elsewhere, or be entered again); the operator of the enclosing
+        # context (if any) is restored on exit
+        self.outer_op = self.manager.current_basis_operator
+        self.manager.store_current_basis_operator(self.op)
 
         self.manager._in_eigenbasis_of_context = True
         
